@@ -385,7 +385,7 @@ fn resolve_posix_tz_string_for_epoch_seconds(
         TransitionType::Std => end,
     };
     let year = utils::epoch_time_to_epoch_year(seconds * 1000);
-    let year_epoch = utils::epoch_days_for_year(year) * 86400;
+    let year_epoch = i64::from(utils::epoch_days_for_year(year)) * 86400;
     let leap_day = utils::mathematical_in_leap_year(seconds * 1000) as u16;
 
     let days = match transition.day {
@@ -397,10 +397,9 @@ fn resolve_posix_tz_string_for_epoch_seconds(
             let days_in_month = u16::from(utils::iso_days_in_month(year, month as u8) - 1);
 
             // Month starts in the day...
-            let day_offset =
-                (u16::from(utils::epoch_seconds_to_day_of_week(i64::from(year_epoch)))
-                    + days_to_month)
-                    .rem_euclid(7);
+            let day_offset = (u16::from(utils::epoch_seconds_to_day_of_week(year_epoch))
+                + days_to_month)
+                .rem_euclid(7);
 
             // EXAMPLE:
             //
@@ -437,8 +436,7 @@ fn resolve_posix_tz_string_for_epoch_seconds(
 
     // Transition time is on local time, so we need to add the UTC offset to get the correct UTC timestamp
     // for the transition.
-    let transition_epoch =
-        i64::from(year_epoch) + i64::from(days) * 86400 + transition.time.0 - old_offset;
+    let transition_epoch = year_epoch + i64::from(days) * 86400 + transition.time.0 - old_offset;
     Ok(TimeZoneOffset {
         offset: new_offset,
         transition_epoch: Some(transition_epoch),
